@@ -423,6 +423,14 @@ Section C12_ops.
       Good V (sget V s' name) (head_old V (sget V s' name) ((newv, lrun veqb ops (head_trie V chain)) :: chain)) [] w'
            (lrun veqb ops (head_trie V chain)).
   Proof. exact (block_from_step V veqb veqb_sound name s chain P w0 newv big skip ops). Qed.
+  (* OpsHistoryC: OpsHistory with muxdb's root-node cache — a block starts from a reference to the head root or from the
+     node tree kept for it; a commit leaves its own tree; commits of other tries / forks and pruner rounds that keep the
+     head leave the kept tree in place; it may be dropped at any time.  It is a History, every trie is well formed, and the
+     kept tree is always a Good handle for the head (coherent, denoting the head's trie, derived). *)
+  Theorem ops_history_with_root_cache name (s : store V) chain P cache :
+    OpsHistoryC V veqb name s chain P cache ->
+    History V name s chain P /\ all_wfc V chain /\ cache_good V s name chain cache.
+  Proof. exact (ops_history_cache_sound V veqb veqb_sound name s chain P cache). Qed.
 End C12_ops.
 
 (* ---- non-vacuity ---- *)
@@ -520,6 +528,10 @@ Example ex_delete_clean :
   exists w', w_delete nat (sget nat ys2 0) 4 (WRef v1) [] kd = Some (false, w') /\
              w_resolve_ref nat (sget nat ys2 0) [] v1 = Some w' /\ dirty_paths nat [] w' = [].
 Proof. exact y_delete_clean. Qed.
+Example ex_ops_history_root_cache : OpsHistoryC nat Nat.eqb 0 ys3' yc3 0 (Some ykw3).
+Proof. exact yC3. Qed.
+Example ex_root_cache_reads : open_root nat 12 ys3' 0 v2 = Some yt2 /\ open_root nat 12 ys3' 0 v1 = Some yt1 /\ ykw2 <> WRef v1.
+Proof. exact y_cache_reads. Qed.
 
 Print Assumptions commit_preserves_roots.
 Print Assumptions resolve_independent_of_cache.
@@ -565,3 +577,4 @@ Print Assumptions insert_dirty_on_path.
 Print Assumptions delete_dirty_on_path.
 Print Assumptions committed_handle_derived.
 Print Assumptions block_from_handle_step.
+Print Assumptions ops_history_with_root_cache.
